@@ -104,6 +104,8 @@ def generate(run_seed, tier):
            'kmols': kmols, 'kt_dirs': kt_dirs,
            'cia_split': c.random() < 0.6, 'exo_orders': True,
            'cia_shared_edge': c.random() < 0.35,
+           'cia_negatives': c.random() < 0.4,
+           'deep_pressures': c.random() < 0.25,
            'hdf5_variants': True,
            'logmag': c.choice([[-40, 0], [-30, -18], [-24, -20]])}
     o = st('ops')
@@ -290,7 +292,8 @@ def execute(case, keep_text=False):
             nT, nP, nW = cfg['shape'][mol]
             rs = np.random.RandomState(H(cfg['tabseed'], mol, gen) % 2**32)
             tabs[key] = ST.make_xsec_table(rs, nT, nP, nW,
-                                           logmag=tuple(cfg['logmag']))
+                                           logmag=tuple(cfg['logmag']),
+                                           deep=bool(cfg.get('deep_pressures')))
         return tabs[key]
 
     def ciatab(pair):
@@ -322,7 +325,15 @@ def execute(case, keep_text=False):
             for wn, tidx in groups:
                 vals = {i: 10 ** rs.uniform(-56, -50, len(wn)) for i in tidx}
                 for i in tidx:
-                    blocks.append((float(T[i]), wn.tolist(), vals[i].tolist()))
+                    raw = vals[i].copy()
+                    if cfg.get('cia_negatives'):
+                        # measured HITRAN files hold a few negative values
+                        # (noise); the documented rule clips them to zero on
+                        # reading, before anything is interpolated
+                        neg = rs.rand(len(wn)) < 0.25
+                        raw[neg] = -raw[neg]
+                        vals[i] = np.where(neg, 0.0, vals[i])
+                    blocks.append((float(T[i]), wn.tolist(), raw.tolist()))
                 for i in range(nT):
                     if i in vals:
                         col = vals[i]
